@@ -92,7 +92,9 @@ func h5lockEngine(args []string) error {
 	})
 	hdf5.SetDelay(20 * time.Microsecond)
 	file := filepath.Join(args[1], "lock.h5")
+	file2 := filepath.Join(args[1], "lock2.h5")
 	os.Remove(file)
+	os.Remove(file2)
 	// set-up outside the trace
 	setup := owio.H5RefFloat64{Filename: file, Dataset: "/a"}
 	f64 := factoryByName("float64")
@@ -102,6 +104,9 @@ func h5lockEngine(args []string) error {
 		return err
 	}
 	hdf5.WriteStringDataset(file, "/txt", []string{"one", "two"}, 8)
+	if err := (owio.H5RefFloat64{Filename: file2, Dataset: "/a"}).Write(root.(*adFloat64).a); err != nil {
+		return err
+	}
 	mu.Lock()
 	tracing = true
 	mu.Unlock()
@@ -116,7 +121,12 @@ func h5lockEngine(args []string) error {
 			r := rand.New(rand.NewSource(seed()*100 + int64(g)))
 			for o := 0; o < nops; o++ {
 				ds := []string{"/a", "/b", "/g/c"}[r.Intn(3)]
-				ref := owio.H5RefFloat64{Filename: file, Dataset: ds}
+				// two files: the HDF5 library is not thread-safe across files either
+				fn := file
+				if r.Intn(3) == 0 {
+					fn = file2
+				}
+				ref := owio.H5RefFloat64{Filename: fn, Dataset: ds}
 				var name string
 				switch r.Intn(9) {
 				case 0:
